@@ -29,6 +29,31 @@ Definition export (p : prim) : str :=
   | POther t => s "<unexportable " ++ t ++ s ">"
   end.
 
+(** A float of magnitude >= 1e19 is printed by the exporter as a decimal integer of 20 or more digits (an untyped integer constant that
+    the compiler rejects beyond 512 bits): the resolver writes it in the exponent form, strconv.FormatFloat(v,'e',-1,64).  Both forms
+    carry the same shortest digit string, so the exponent form is computed from the plain one: d1 [. d2...dk] e+NN. *)
+Definition is_digit_c (c : ascii) : bool := (48 <=? code c)%N && (code c <=? 57)%N.
+Definition huge_float_text (t : str) : bool :=
+  let ds := match t with "-"%char :: r => r | _ => t end in
+  forallb is_digit_c ds && Nat.leb 20 (length ds).
+Fixpoint strip_trailing_zeros (l : str) : str :=
+  match l with
+  | [] => []
+  | c :: r => match strip_trailing_zeros r with
+              | [] => if Ascii.eqb c "0"%char then [] else [c]
+              | r' => c :: r'
+              end
+  end.
+Definition exp_form (t : str) : str :=
+  let '(sign, ds) := match t with "-"%char :: r => (s "-", r) | _ => ([], t) end in
+  let m := strip_trailing_zeros ds in
+  let e := dec_of_N (N.of_nat (length ds - 1)) in
+  sign ++ match m with
+          | [] => s "0"
+          | d :: [] => [d]
+          | d :: r => d :: "."%char :: r
+          end ++ s "e+" ++ (if Nat.ltb (length e) 2 then "0"%char :: e else e).
+
 (** NonStringPrimitiveResolver: Go has no constant expression for a non-finite float, so these are emitted as run-time
     expressions; everything else is the exporter's text.  The text of a float is strconv.FormatFloat(v,'f',-1,64). *)
 Definition literal_code (p : prim) : str :=
@@ -37,6 +62,7 @@ Definition literal_code (p : prim) : str :=
       if str_eqb k (s "float64") && str_eqb t (s "+Inf") then s "func() float64 { var z float64; return 1 / z }()"
       else if str_eqb k (s "float64") && str_eqb t (s "-Inf") then s "func() float64 { var z float64; return -1 / z }()"
       else if str_eqb k (s "float64") && str_eqb t (s "NaN") then s "func() float64 { var z float64; return z / z }()"
+      else if str_eqb k (s "float64") && huge_float_text t then k ++ s "(" ++ exp_form t ++ s ")"
       else export p
   | _ => export p
   end.
@@ -168,11 +194,14 @@ Definition resolve_param (p : prim) (c : cst) : (pexpr * err) * cst :=
 
 (** *** compile steps *)
 
+(** syntax.SanitizeImport applied to a meta.imports value: the quotes are not part of the path *)
+Definition sanitize_path (p : str) : str := let r := trim_both """"%char p in if str_eqb r (s ".") then [] else r.
+
 (** StepCompileMeta *)
 Fixpoint register_imports (l : list (str * str)) (is_ : ist) : list err * ist :=
   match l with
   | [] => ([], is_)
-  | (a, p) :: l' => let '(is1, e) := register_prefix a p is_ in
+  | (a, p) :: l' => let '(is1, e) := register_prefix a (sanitize_path p) is_ in
                     let '(es, is2) := register_imports l' is1 in (e :: es, is2)
   end.
 
